@@ -48,7 +48,13 @@ class RefServer(object):
         self.addr = "\0verif-ref-%d-%d" % (os.getpid(), _COUNT[0])
         self.conn = None
         self.conn_pid = None
-        self._zygote()
+        self.local = {}
+        try:
+            self._zygote()
+        except OSError:
+            # no unix sockets here: fall back to a child forked per request from the calling process (still a process
+            # of its own for every reference, but one that inherits what the caller has executed so far)
+            self.addr = None
 
     # ---------------------------------------------------------------- the three kinds of process
     def _zygote(self):
@@ -115,6 +121,14 @@ class RefServer(object):
     # ---------------------------------------------------------------- client side
     def call(self, request):
         """fn(request) evaluated in a pristine copy of the building process; raises RuntimeError if fn raised there"""
+        if self.addr is None:
+            req = pickle.dumps(request)
+            if req not in self.local:
+                self.local[req] = self._once(req)
+            status, val = pickle.loads(self.local[req])
+            if status != "ok":
+                raise RuntimeError(val)
+            return val
         if self.conn is None or self.conn_pid != os.getpid():
             self.conn = socket.socket(socket.AF_UNIX, socket.SOCK_STREAM)
             self.conn.connect(self.addr)
